@@ -776,6 +776,52 @@ def run_imports(ctx, res, thorough):
                     del sys.modules[k]
 
 
+def run_imports_in_package_init(ctx, res, thorough):
+    """the kept function lives in the __init__.py of a sub-package and imports, in its body, from that sub-package with relative
+    imports (from .conf import scale): '.' is the sub-package itself, not its parent - where a module of the same name sits as a decoy"""
+    real = pipeline.real_runner()
+    ref = pipeline.ref_worker()
+    for ci, store_kind in enumerate(["memory", "local"]):
+        base = tempfile.mkdtemp(prefix="ddsverif_c01ip_")
+        pkg = "c1ip_%d_%d" % (os.getpid(), ci)
+        try:
+            real.reset_process_state()
+            real.set_store(store_kind, os.path.join(base, "si"), os.path.join(base, "sd"))
+            ref.call(cmd="refpaths", paths={})
+            os.makedirs(os.path.join(base, pkg, "etl"), exist_ok=True)
+            open(os.path.join(base, pkg, "__init__.py"), "w").close()
+            with open(os.path.join(base, pkg, "etl", "__init__.py"), "w") as fh:
+                fh.write("import dds\nfrom ddsverif_rt import term\nfrom . import conf as _conf_is_loaded\n\n"
+                         "def f1():\n    from .conf import scale\n    from . import conf\n    from .. import conf as up\n    return term('f1', scale(), conf.K, up.scale())\n")
+            with open(os.path.join(base, pkg, "main.py"), "w") as fh:
+                fh.write("import dds\nfrom ddsverif_rt import term\nfrom . import conf as _up_is_loaded\nfrom .etl import f1\n\ndef f0():\n    return dds.keep('/imp/init', f1)\n")
+            for step, (v_etl, v_up) in enumerate([(1, 1), (2, 1), (2, 2), (1, 1)]):
+                with open(os.path.join(base, pkg, "etl", "conf.py"), "w") as fh:
+                    fh.write("K = %d\n\ndef scale():\n    return 'etl#%d'\n" % (10 * v_etl, v_etl))
+                with open(os.path.join(base, pkg, "conf.py"), "w") as fh:
+                    fh.write("K = %d\n\ndef scale():\n    return 'up#%d'\n" % (7 * v_up, v_up))
+                real.load_world(base, pkg + ".main", None, accept=pkg)
+                ref.call(cmd="world", dir=base, module=pkg + ".main", extmod=None)
+                entry = {"kind": "eval", "fun": "f0"}
+                rr = ref.call(cmd="run", entry=entry)
+                r = real.run(entry)
+                res.evaluations += 1
+                res.count("import_in_package_init_steps")
+                res.nontrivial("imports in a package __init__ %d %d" % (ci, step))
+                if rr.get("error") is not None:
+                    raise common.Infra("the package-init import case does not run: %s" % (rr["error"],))
+                if r["error"] is not None or r["value"] != rr["value"]:
+                    res.violations.append({"what": "a kept function defined in the __init__.py of a sub-package, with relative imports in its body: after an edit of the "
+                                                   "imported modules it returns %r (error %s), plain execution %r" % (r["value"], r["error"], rr["value"]),
+                                           "input": {"step": step, "versions": [v_etl, v_up], "store": store_kind}, "kf": None})
+                    break
+        finally:
+            shutil.rmtree(base, ignore_errors=True)
+            for k in list(sys.modules):
+                if k.split(".")[0] == pkg:
+                    del sys.modules[k]
+
+
 def analysed_names_full(modname, fname):
     """the real analysis of the function: (local paths of the variables recorded, full paths of the functions analysed)"""
     import importlib
